@@ -153,6 +153,18 @@ pub fn run(rep: &mut Report) {
         let c = ((p.wrapping_neg() as i64).wrapping_add(d) as u64) & 0xffff_ffff;
         triple_fast::<P32E2>(a, b, c, l)
     });
+    if tier == Tier::Thorough {
+        rep.lattice("P16E1 ALL 2^32 (a,b) pairs, c = -round(ab) + d for d in -2..=2 (deep cancellation window), 3 ops (fast oracle)", (1u64 << 32) * 5, |i, l| {
+            let (ab, d) = (i / 5, (i % 5) as i64 - 2);
+            let (a, b) = (ab >> 16, ab & 0xffff);
+            let p = match (fdec::<P16E1>(a), fdec::<P16E1>(b)) {
+                (Some(x), Some(y)) => fenc::<P16E1>(fr::mul(x, y)),
+                _ => 0,
+            };
+            let c = ((p.wrapping_neg() as i64).wrapping_add(d) as u64) & 0xffff;
+            triple_fast::<P16E1>(a, b, c, l)
+        });
+    }
     let lat16 = super::c01::extreme_lattice(16, if tier == Tier::Quick { 10 } else { 8 });
     let k = lat16.len() as u64;
     rep.lattice(&format!("P16E1 (a,b) over {} extreme-regime patterns, c = -round(ab) + d, d in -4..=4 (fast oracle)", k), k * k * 9, |i, l| {
